@@ -99,9 +99,12 @@ fn main() {
                 of: 1,
                 verif_dir: verif_dir(),
             };
-            let v: serde_json::Value =
-                serde_json::from_str(&std::fs::read_to_string(path).expect("cannot read replay file"))
-                    .expect("replay file is not JSON");
+            let raw = std::fs::read(path).expect("cannot read replay file");
+            let v: serde_json::Value = match std::str::from_utf8(&raw).ok().and_then(|t| serde_json::from_str(t).ok()) {
+                Some(v) => v,
+                // a libFuzzer artifact: the raw bytes of the choice sequence
+                None => serde_json::json!({ "fuzz_bytes": raw }),
+            };
             match (def.replay)(&ctx, &v) {
                 Ok(m) => {
                     println!("replay ok: {m}");
@@ -197,6 +200,24 @@ fn main() {
                 }
             }
             report.extra.insert("regression_replays".into(), serde_json::json!(n_regressions));
+            if let Ok(p) = std::env::var("VERIF_FUZZ_SUMMARY") {
+                if let Ok(txt) = std::fs::read_to_string(&p) {
+                    if let Ok(v) = serde_json::from_str::<serde_json::Value>(&txt) {
+                        if let Some(m) = v.as_object() {
+                            for (target, r) in m {
+                                if let Some(c) = r.get("crash").and_then(|c| c.as_str()).filter(|c| !c.is_empty()) {
+                                    report.violations.push(Violation {
+                                        message: format!("libFuzzer target {target} found a failing input"),
+                                        replay: c.to_string(),
+                                    });
+                                }
+                            }
+                        }
+                        report.extra.insert("libfuzzer_campaigns".into(), v);
+                    }
+                    let _ = std::fs::remove_file(&p);
+                }
+            }
             let _ = std::fs::remove_dir_all(&work);
             let ctx = Ctx {
                 id: id.clone(),
